@@ -348,6 +348,36 @@ func TestC06Bindings(t *testing.T) {
 			scope = append(ns, bindSpec{name, ty})
 			final[name] = ty
 		}
+		// the same value text before and after the name it mentions is rebound:
+		// `let a = N + 1; let N = 3; let b = N + 1`
+		if rapid.IntRange(0, 7).Draw(rt, "sametext") == 0 {
+			var ints []bindSpec
+			for _, b := range scope {
+				if b.t == gen.TInt {
+					ints = append(ints, b)
+				}
+			}
+			if len(ints) > 0 {
+				nb := ints[rapid.IntRange(0, len(ints)-1).Draw(rt, "sametextname")]
+				op := rapid.SampledFrom([]string{"+", "-", "*"}).Draw(rt, "sametextop")
+				val := func() gen.Expr { return &gen.Binary{Op: op, X: gen.ID(nb.name), Y: &gen.Num{Text: "1"}} }
+				add := func(name string, x gen.Expr) {
+					prog.Stmts = append(prog.Stmts, &gen.Let{Name: gen.Ident{Name: name}, X: x})
+					var ns []bindSpec
+					for _, b := range scope {
+						if b.name != name {
+							ns = append(ns, b)
+						}
+					}
+					scope = append(ns, bindSpec{name, gen.TInt})
+					final[name] = gen.TInt
+				}
+				add("v", val())
+				add(nb.name, &gen.Num{Text: fmt.Sprint(rapid.IntRange(2, 4).Draw(rt, "rebound"))})
+				add("w", val())
+				classes["same-value-text-around-a-rebinding"] = true
+			}
+		}
 		// --- the query: a well-typed pipeline that uses the bindings
 		tenv := &gen.TEnv{Base: gen.StdSchemas, JoinTables: []string{"B", "C"}, UseBindings: 2, Uses: map[string]int{}, ForceQuote: map[string]bool{}}
 		for name, ty := range final {
